@@ -96,7 +96,14 @@ func nestingBuildersBounded(r *core.Run) {
 					return true
 				}
 				if id, ok := as.Lhs[0].(*ast.Ident); ok && info.ObjectOf(id) == cur {
-					if sel, ok := core.Unparen(as.Rhs[0]).(*ast.SelectorExpr); ok {
+					rhs := core.Unparen(as.Rhs[0])
+					if rid, ok := rhs.(*ast.Ident); ok {
+						// `if parent := cur.parent; parent != nil { cur = parent }`
+						if def := soleDefinition(info, rid); def != nil {
+							rhs = core.Unparen(def)
+						}
+					}
+					if sel, ok := rhs.(*ast.SelectorExpr); ok {
 						if rid, ok := core.Unparen(sel.X).(*ast.Ident); ok && info.ObjectOf(rid) == cur {
 							ascend = true
 						}
